@@ -50,6 +50,7 @@ CONSTANTS Classes,        \* classes offered: subset of {"House","Store","Tasker
           Clears,         \* kinds whose registry may be cleared on its own: subset of {"store","tasker","log","frame"}
           ClearAllOffered,\* BOOLEAN: House.Clear() + ClearRegistries() offered
           Clones,         \* BOOLEAN: framer clones offered
+          Prunes,         \* BOOLEAN: Framer.prune offered
           Queries,        \* BOOLEAN: VerifyName / Retrieve / non-string names offered
           Closed          \* TRUE (complete graph): automatic names are drawn from AutoCandidates; FALSE (traces): any name
 
@@ -91,6 +92,7 @@ Rejected == [t |-> "err", e |-> "ParameterError", kept |-> TRUE]  \* kept: every
 CloneRejected == [t |-> "err", e |-> "CloneError", kept |-> TRUE]
 Done == [t |-> "done"]
 Cleared == [t |-> "cleared"]
+Pruned == [t |-> "pruned"]
 Bool(b) == [t |-> "bool", v |-> b]
 \* number of registered names (model bound)
 Size == Cardinality(UNION {{<<s, n>> : n \in names[s]} : s \in DOMAIN names})
@@ -205,6 +207,15 @@ Clone(h, f, n) ==
                        [sw EXCEPT !["frame"] = <<h, n>>])
             /\ res' = Created(n)
 
+\* framer.prune() for framer f registered in the tasker namespace owned by o ("Recursively Prune (destroy) ...",
+\* the framer gives up its place).  The documentation does not say that the name is freed, so it may stay
+\* registered or be freed; what de-registration may touch is only this framer's own entry in its own namespace:
+\* every other namespace - in particular the one that happens to be current - keeps all its names.
+Prune(o, f) ==
+    /\ Prunes /\ FramerOk(o, f) /\ res' = Pruned
+    /\ \/ UNCHANGED <<names, cur>>
+       \/ Settled(Put(names, <<"tasker", o>>, names[<<"tasker", o>>] \ {f}), cur)
+
 Next == \/ \E c \in Classes : \E n \in Offered(c) : CreateExplicit(c, n) \/ VerifyName(c, n) \/ Retrieve(c, n)
         \/ \E c \in Classes : \E n \in Offered(c) \cup Extras : CreateAuto(c, n, TRUE)
         \/ \E c \in Classes : CreateBad(c)
@@ -213,6 +224,7 @@ Next == \/ \E c \in Classes : \E n \in Offered(c) : CreateExplicit(c, n) \/ Veri
         \/ \E h \in HouseNames : SwitchHouse(h)
         \/ \E o \in {"d"} \cup HouseNames, f \in TaskerNames : SwitchFramer(o, f)
         \/ \E h \in HouseNames, f \in TaskerNames, n \in TaskerNames : Clone(h, f, n)
+        \/ \E o \in {"d"} \cup HouseNames, f \in TaskerNames : Prune(o, f)
 Spec == Init /\ [][Next]_vars
 
 (* ---- properties (C47) ---- *)
@@ -236,4 +248,11 @@ NoCrossHouse == [][IsCreation =>
                      \A s \in Both : names'[s] # names[s] => (s = G \/ s = <<s[1], cur'[s[1]]>> \/ s = <<"store", cur["store"]>>)]_vars
 \* switching namespaces and queries never change the content of any namespace
 SwitchKeepsNames == [][(res'.t \in {"done", "bool"}) => \A s \in Both : names'[s] = names[s]]_vars
+\* de-registration frees at most the pruned framer's own name in its own tasker namespace (and with it the frame
+\* namespace of that framer); nothing else loses a name
+PruneFreesOnlyOwn == [][res'.t = "pruned" =>
+                          \A s \in DOMAIN names : \/ (s \in DOMAIN names' /\ names'[s] = names[s])
+                                                   \/ (s[1] = "tasker" /\ s \in DOMAIN names' /\ names'[s] \subseteq names[s]
+                                                        /\ Cardinality(names[s] \ names'[s]) = 1)
+                                                   \/ s[1] = "frame"]_vars
 =============================================================================
